@@ -14,6 +14,9 @@ def table(seed):
         if k == 0: cols[nm] = [f"s{(b * (i + 2) + (1 if R.random() < 0.15 else 0)) % 9}" for b in base]
         elif k == 1: cols[nm] = [b * 3 + R.randint(0, 1) for b in base] if nm == "b" else [(b * (i + 1) + R.randint(0, 1)) % 7 for b in base]
         elif k == 2: cols[nm] = [round(R.gauss(b, 1.0), 1) for b in base]
+        elif nm == "delta":
+            # values that differ only in case (ties under any case-insensitive ordering): their codes must not depend on the interpreter's string hashing
+            cols[nm] = [R.choice(["yes", "Yes", "YES", "no", "No", "maybe"]) for _ in range(n)]
         else: cols[nm] = [str(R.randint(0, 6)) for _ in range(n)]
     return pd.DataFrame(cols)
 
